@@ -45,6 +45,15 @@ Theorem C18_exp_log (q : Q) : qnorm2 q = 1 -> 0 <= qw q -> cut < n3 (qvec ROps q
   rv_to_q ROps (q_to_rv ROps q) = q.
 Proof. exact (exp_log q). Qed.
 
+(* negative real part: the round trip returns the other representative of the same rotation *)
+Theorem C18_exp_log_neg (q : Q) : qnorm2 q = 1 -> qw q < 0 -> cut < n3 (qvec ROps q) ->
+  rv_to_q ROps (q_to_rv ROps q) = qneg q.
+Proof. exact (exp_log_neg q). Qed.
+
+Theorem C18_exp_log_pm (q : Q) : qnorm2 q = 1 -> cut < n3 (qvec ROps q) ->
+  rv_to_q ROps (q_to_rv ROps q) = q \/ rv_to_q ROps (q_to_rv ROps q) = qneg q.
+Proof. exact (exp_log_pm q). Qed.
+
 Theorem C18_exp_log_cutoff_zone (q : Q) : qnorm2 q = 1 -> 0 <= qw q -> n3 (qvec ROps q) <= cut ->
   rv_to_q ROps (q_to_rv ROps q) = Q1 /\ (qw q - 1)² + (qx q)² + (qy q)² + (qz q)² <= 2 * cut².
 Proof. intros H1 H2 H3. exact (conj (exp_log_zone q H3) (zone_distance q H1 H2 H3)). Qed.
@@ -83,11 +92,20 @@ Theorem C18_diff_double_cover (a b : Q) : qw (qmul ROps a (qconj ROps b)) <> 0 -
   qdiff_one ROps (qneg a) b = qdiff_one ROps a b.
 Proof. exact (diff_double_cover a b). Qed.
 
-(* the convention: exp(r/2) * q on the left, 2 log(q_left * conj(q_right)); the order is observable *)
-Theorem C18_left_convention (q ql qr : Q) (r : V) :
-  qsum_one ROps q r = qmul ROps (rv_to_q ROps r) q /\
-  qdiff_one ROps ql qr = q_to_rv ROps (qmul ROps ql (qconj ROps qr)).
-Proof. split; reflexivity. Qed.
+(* the convention, observably: the increment is recovered in the GLOBAL frame by multiplying with conj q on
+   the right, and a difference of (e * q) and q is log e *)
+Theorem C18_left_convention (q e : Q) (r : V) : qnorm2 q = 1 ->
+  qmul ROps (qsum_one ROps q r) (qconj ROps q) = rv_to_q ROps r /\
+  qdiff_one ROps (qmul ROps e q) q = q_to_rv ROps e.
+Proof. intros H. exact (conj (left_convention_sum q r H) (left_convention_diff e q H)). Qed.
+
+(* the right (body-frame) convention q * exp(r/2) fails that statement: q = j, r = (PI, 0, 0) *)
+Theorem C18_right_convention_differs :
+  let q := mkQR 0 0 1 0 in let r := mkVR PI 0 0 in
+  qnorm2 q = 1 /\ rv_to_q ROps r = mkQR 0 1 0 0 /\
+  qmul ROps (qmul ROps q (rv_to_q ROps r)) (qconj ROps q) = mkQR 0 (-1) 0 0 /\
+  qmul ROps (qmul ROps q (rv_to_q ROps r)) (qconj ROps q) <> rv_to_q ROps r.
+Proof. exact right_convention_differs. Qed.
 
 Theorem C18_product_order_matters :
   qmul ROps (mkQR 0 1 0 0) (mkQR 0 0 1 0) = mkQR 0 0 0 1 /\
@@ -108,10 +126,6 @@ Theorem C18_mean_matrix_pinned (w : list R) (qs : list Q) i j :
   outer_sum ROps w qs i j = osum (combine w qs) i j.
 Proof. exact (outer_sum_R w qs i j). Qed.
 
-Theorem C18_mean_unit eig (w : list R) (qs : list Q) :
-  max_eig_contract (outer_sum ROps w qs) (qmean ROps eig w qs) -> qnorm2 (qmean ROps eig w qs) = 1.
-Proof. exact (mean_unit eig w qs). Qed.
-
 Theorem C18_mean_all_equal eig (w : list R) (qs : list Q) (q : Q) :
   qnorm2 q = 1 -> all_pm q qs -> 0 < wtot w qs ->
   max_eig_contract (outer_sum ROps w qs) (qmean ROps eig w qs) ->
@@ -123,7 +137,26 @@ Theorem C18_mean_symmetric_centre_is_eigenvector (qc : Q) w0 (ws : list R) (al :
   is_eigvec (outer_sum ROps (sym_weights w0 ws) (sym_quats qc al)) qc (qnorm2 qc * (w0 + 2 * sym_coef ws al)).
 Proof. exact (sym_centre_eigvec qc w0 ws al). Qed.
 
-(* partial: dominance of the centre's eigenvalue is a premise (explicit eigen-gap), not derived *)
+(* non-negative weights, unit offsets a_j closer than a quarter turn (tight a := |a| = 1 /\ Re(a)^2 > 1/2):
+   the eigen-gap is DERIVED (every eigen-direction other than the centre's has a smaller eigenvalue) ... *)
+Theorem C18_mean_symmetric_gap (qc : Q) w0 (ws : list R) (al : list Q) :
+  qnorm2 qc = 1 -> length ws = length al -> 0 <= w0 -> Forall (fun w => 0 < w) ws -> Forall tight al ->
+  (0 < w0 \/ al <> []) ->
+  forall u mu, is_eigvec (outer_sum ROps (sym_weights w0 ws) (sym_quats qc al)) u mu ->
+               (forall k, u <> qscale k qc) -> mu < w0 + 2 * sym_coef ws al.
+Proof. exact (sym_gap qc w0 ws al). Qed.
+
+(* ... so the mean of a symmetric set is +- its centre (eigen-solver contract as the only oracle premise) *)
+Theorem C18_mean_symmetric eig (qc : Q) w0 (ws : list R) (al : list Q) :
+  qnorm2 qc = 1 -> length ws = length al -> 0 <= w0 -> Forall (fun w => 0 < w) ws -> Forall tight al ->
+  (0 < w0 \/ al <> []) ->
+  max_eig_contract (outer_sum ROps (sym_weights w0 ws) (sym_quats qc al)) (qmean ROps eig (sym_weights w0 ws) (sym_quats qc al)) ->
+  qmean ROps eig (sym_weights w0 ws) (sym_quats qc al) = qc \/
+  qmean ROps eig (sym_weights w0 ws) (sym_quats qc al) = qneg qc.
+Proof. exact (mean_symmetric eig qc w0 ws al). Qed.
+
+(* partial (negative central weight w0, as in unscented sets, or wide offsets): dominance of the centre's
+   eigenvalue is a premise (explicit eigen-gap), not derived *)
 Theorem C18_mean_symmetric_partial eig (qc : Q) w0 (ws : list R) (al : list Q) :
   qnorm2 qc = 1 -> length ws = length al ->
   let A := outer_sum ROps (sym_weights w0 ws) (sym_quats qc al) in
@@ -138,6 +171,11 @@ Example C18_unit_quaternion_exists : qnorm2 (mkQR (3/5) (4/5) 0 0) = 1.
 Proof. exact example_unit. Qed.
 Example C18_log_exp_premises_satisfiable : let r := mkVR 1 0 0 in cut < sin (n3 r / 2) /\ n3 r <= PI.
 Proof. exact example_log_exp_premises. Qed.
+Example C18_symmetric_premises_satisfiable :
+  let qc := Q1 in let al := [mkQR (4/5) (3/5) 0 0] in let ws := [1/4] in let w0 := 1/2 in
+  qnorm2 qc = 1 /\ length ws = length al /\ 0 <= w0 /\ Forall (fun w => 0 < w) ws /\ Forall tight al /\ (0 < w0 \/ al <> []) /\
+  sym_quats qc al = [Q1; mkQR (4/5) (3/5) 0 0; mkQR (4/5) (-(3/5)) 0 0] /\ w0 + 2 * sym_coef ws al = 41/50.
+Proof. exact example_symmetric_premises. Qed.
 Example C18_eigen_contract_satisfiable : max_eig_contract (outer_sum ROps [1] [Q1]) Q1.
 Proof. exact example_contract. Qed.
 
@@ -149,6 +187,8 @@ Print Assumptions C18_true_bound_exceeds_2e_4.
 Print Assumptions C18_true_bound_numeric.
 Print Assumptions C18_bound_2e_4_refuted.
 Print Assumptions C18_exp_log.
+Print Assumptions C18_exp_log_neg.
+Print Assumptions C18_exp_log_pm.
 Print Assumptions C18_exp_log_cutoff_zone.
 Print Assumptions C18_double_cover.
 Print Assumptions C18_double_cover_half_turn.
@@ -160,11 +200,13 @@ Print Assumptions C18_diff_sum_error_bound.
 Print Assumptions C18_diff_norm_le_pi.
 Print Assumptions C18_diff_double_cover.
 Print Assumptions C18_left_convention.
+Print Assumptions C18_right_convention_differs.
 Print Assumptions C18_product_order_matters.
 Print Assumptions C18_mean_negation_invariant.
 Print Assumptions C18_mean_permutation_invariant.
 Print Assumptions C18_mean_matrix_pinned.
-Print Assumptions C18_mean_unit.
 Print Assumptions C18_mean_all_equal.
 Print Assumptions C18_mean_symmetric_centre_is_eigenvector.
+Print Assumptions C18_mean_symmetric_gap.
+Print Assumptions C18_mean_symmetric.
 Print Assumptions C18_mean_symmetric_partial.
